@@ -1,5 +1,5 @@
 #!/bin/bash
-# tools_evalmut.sh <dir with patch.diff + demo.rs> <label> [tier=quick] <props...>
+# tools_evalmut.sh <ABSOLUTE dir with patch.diff + demo.rs> <label> [tier=quick] <props...>
 #
 # Confirm a candidate property-breaking change and run checks against it, entirely on scratch
 # copies (a git worktree of /repo HEAD and a copy of /verif whose path dependency points at
